@@ -1822,6 +1822,41 @@ mmx_suffixes = {
     '##SS#':   ('INVALID', 'ss', 'INVALID', 'INVALID'),
     '##SD#':   ('INVALID', 'sd', 'INVALID', 'INVALID'),
 }
+# (opcode bytes [, /digit]) -> mandatory prefixes (0 = none) under which IA-32
+# defines no instruction although the suffix scheme of the row would name one
+# (andss, movasd, rsqrtpd; the 66-only SSE4 opcodes without prefix; ...)
+mmx_undefined = {
+    (0x0F, 0x13): (0xF2, 0xF3), (0x0F, 0x17): (0xF3,),
+    (0x0F, 0x14): (0xF2, 0xF3), (0x0F, 0x15): (0xF2, 0xF3),
+    (0x0F, 0x28): (0xF2, 0xF3), (0x0F, 0x29): (0xF2, 0xF3),
+    (0x0F, 0x2B): (0xF2, 0xF3),
+    (0x0F, 0x52): (0x66, 0xF2), (0x0F, 0x53): (0x66, 0xF2),
+    (0x0F, 0x54): (0xF2, 0xF3), (0x0F, 0x55): (0xF2, 0xF3),
+    (0x0F, 0x56): (0xF2, 0xF3), (0x0F, 0x57): (0xF2, 0xF3),
+    (0x0F, 0xC6): (0xF2, 0xF3),
+    (0x0F, 0x6C): (0,), (0x0F, 0x6D): (0,), (0x0F, 0x6E): (0xF3,),
+    (0x0F, 0x73, 3): (0,), (0x0F, 0x73, 7): (0,),
+    (0x0F, 0xD6): (0,), (0x0F, 0xD7): (0xF2, 0xF3),
+    (0x0F, 0x3A, 0x0E): (0,), (0x0F, 0x3A, 0x14): (0,), (0x0F, 0x3A, 0x15): (0,),
+    (0x0F, 0x3A, 0x16): (0,), (0x0F, 0x3A, 0x20): (0,), (0x0F, 0x3A, 0x22): (0,),
+    (0x0F, 0x3A, 0x44): (0,), (0x0F, 0x3A, 0x60): (0,), (0x0F, 0x3A, 0x61): (0,),
+    (0x0F, 0x3A, 0x62): (0,), (0x0F, 0x3A, 0x63): (0,),
+    }
+for _op in [0x10, 0x17, 0x20, 0x21, 0x22, 0x23, 0x24, 0x25, 0x28, 0x29, 0x2B,
+            0x30, 0x31, 0x32, 0x33, 0x34, 0x35, 0x37, 0x38, 0x39, 0x3A, 0x3B,
+            0x3C, 0x3D, 0x3E, 0x3F, 0x40, 0x41]:
+    mmx_undefined[(0x0F, 0x38, _op)] = (0,)
+
+def mmx_undefined_form(m, prefix):
+    # 'prefix' is the list of prefixes of the instruction; the last of
+    # 66/F2/F3 is the mandatory one
+    p = ([0]+[_ for _ in prefix if _ in mmx_prefixes[1:]])[-1]
+    key = tuple(m.opc)
+    if type(m.afs) is int:
+        # /digit rows carry the digit (shifted) as last opcode element
+        key = key[:-1] + (m.afs>>3,)
+    return p in mmx_undefined.get(key, ())
+
 def mmx_set_suffix(name, p):
     for suffix in mmx_suffixes:
         if suffix in name:
@@ -2472,6 +2507,8 @@ class x86_mn(x86_mn_base):
                     ([0]+sse_prefix)[-1]))
                 if 'INVALID' in p or 'REPZ' in p or 'REPNZ' in p:
                     return None
+                if mmx_undefined_form(m, sse_prefix):
+                    return None
                 if self.admode == u16:
                     # 16-bit addressing of MMX/SSE operands is not
                     # supported (the ModRM tables of the mm/xmm register
@@ -3099,6 +3136,9 @@ class x86_mn(x86_mn_base):
             log.debug('MMX prefix %r', prefix)
             name = mmx_name
         candidate = x86mndb.find_mnemo(name)
+        # (opcode, mandatory prefix) pairs that are not instructions
+        candidate = [c for c in candidate
+                     if not (c.modifs[mmx] and mmx_undefined_form(c, prefix))]
         if not candidate:
             log.warning("no mnemonic found")
 
